@@ -263,6 +263,7 @@ var propSpecs = []propSpec{
 			{dir: "mux", entry: "ZZC07Pool", quick: []int{5}, thorough: []int{7}},
 			{dir: "mux", entry: "ZZC07Nested", quick: []int{2}, thorough: []int{3}},
 			{dir: "mux", entry: "ZZC07Wide", quick: []int{2}, thorough: []int{3}},
+			{dir: "mux", entry: "ZZC08Rec", quick: []int{2}, thorough: []int{3}},
 			{dir: "mux", entry: "ZZC07Par", quick: []int{0, 1, 2, 3, 10, 12}, thorough: []int{0, 1, 2, 3, 10, 12}},
 		},
 		covers:  []string{"foreign-activity", "pooled-request-served", "nested-request", "after-a-wide-request", "par-two-routers", "par-router-and-hosts", "par-build-and-serve", "par-shared-options", "par-requests"},
